@@ -464,11 +464,31 @@ func checkC17(c *Ctx, r *Report) {
 // declared. Every insertion into Root.schema's fields outside the SDL reader is therefore
 // control-dependent on Root.schema having been nil.
 func c17Roots(c *Ctx, r *Report) {
-	r.rule("C17.ROOTS", "outside the SDL reader, fields are added to Root.schema only under root.schema == nil (a schema created there): a declared schema block is never completed by default names")
+	r.rule("C17.ROOTS", "outside the SDL reader, root operation fields are added only to a schema that was not declared: under root.schema == nil, or to a fresh Schema that replaces root.schema on paths where root.schema is nil or marked as implied (the mark is set on schemas made there only); a declared schema block is never completed by default names")
 	add := c.fn("(*fieldList).add")
 	if add == nil {
 		r.undecided("C17.ROOTS", "anchor (*fieldList).add", token.NoPos, "not found")
 		return
+	}
+	// the mark of an implied schema is only ever set on a Schema made outside the reader
+	for _, fn := range c.allFns {
+		for _, b := range fn.Blocks {
+			for _, in := range b.Instrs {
+				st, ok := in.(*ssa.Store)
+				if !ok {
+					continue
+				}
+				fa, ok := st.Addr.(*ssa.FieldAddr)
+				if !ok {
+					continue
+				}
+				if o, f := fieldOwner(fa.X.Type(), fa.Field); o != "Schema" || f != "implied" {
+					continue
+				}
+				fresh := rootAlloc(fa.X) != nil && !isScannerFn(c, fn)
+				r.check("C17.ROOTS", fmt.Sprintf("%s: the implied mark is set on a schema made here, outside the reader", fnName(fn)), st.Pos(), fresh, "a schema that was declared (or one made by the reader) is marked as implied: later loads complete it with default root operation names")
+			}
+		}
 	}
 	n := 0
 	for _, fn := range c.allFns {
@@ -480,8 +500,10 @@ func c17Roots(c *Ctx, r *Report) {
 			if ci.Common().StaticCallee() != add || len(ci.Common().Args) < 1 {
 				continue
 			}
-			// receiver &X.fields with X reached from a load of Root.schema
+			// receiver &X.fields with X reached from a load of Root.schema, or X a Schema made here that is
+			// stored into Root.schema
 			onSchema := false
+			var fresh *ssa.Alloc
 			v := ci.Common().Args[0]
 			for d := 0; d < 6 && v != nil; d++ {
 				switch t := v.(type) {
@@ -492,28 +514,96 @@ func c17Roots(c *Ctx, r *Report) {
 						onSchema = true
 					}
 					v = nil
+				case *ssa.Alloc:
+					if derefNamed(t.Type()) == "Schema" {
+						fresh = t
+					}
+					v = nil
 				default:
 					v = nil
 				}
 			}
-			if !onSchema {
+			var replaces *ssa.Store
+			if fresh != nil {
+				for _, b := range fn.Blocks {
+					for _, in := range b.Instrs {
+						if st, ok := in.(*ssa.Store); ok && st.Val == ssa.Value(fresh) {
+							if fa, ok := st.Addr.(*ssa.FieldAddr); ok {
+								if o, f := fieldOwner(fa.X.Type(), fa.Field); o == "Root" && f == "schema" {
+									replaces = st
+								}
+							}
+						}
+					}
+				}
+			}
+			if !onSchema && replaces == nil {
 				continue
 			}
 			n++
 			k++
-			ok := hasGuard(ci.Block(), func(g guard) bool {
-				x, eq, isN := nilCmp(g.cond)
-				if !isN || eq != g.val {
-					return false
-				}
-				_, o, f, isF := loadOfField(x)
-				return isF && o == "Root" && f == "schema"
-			})
+			ok := false
+			if onSchema {
+				ok = hasGuard(ci.Block(), func(g guard) bool {
+					x, eq, isN := nilCmp(g.cond)
+					if !isN || eq != g.val {
+						return false
+					}
+					_, o, f, isF := loadOfField(x)
+					return isF && o == "Root" && f == "schema"
+				})
+			} else {
+				ok = !c17DeclaredReaches(fn, replaces.Block())
+			}
 			r.check("C17.ROOTS", fmt.Sprintf("%s: insertion #%d into the schema's root fields only while building an undeclared schema", fnName(fn), k), ci.Pos(), ok,
 				"a root operation field is added to a schema that may have been declared: with `schema { query: Query }` and ordinary types named Mutation or Subscription, introspection reports mutationType / subscriptionType the SDL does not declare")
 		}
 	}
 	r.floor("C17.ROOTS", "insertions into Root.schema's fields outside the reader", n, 1)
+}
+
+// c17DeclaredReaches: can control reach target while root.schema is a declared schema? The edges on which
+// root.schema is known to be nil, or its implied mark known to be set, are cut; what is still reachable from
+// the entry is reachable with a declared schema.
+func c17DeclaredReaches(fn *ssa.Function, target *ssa.BasicBlock) bool {
+	cut := map[[2]*ssa.BasicBlock]bool{}
+	for _, b := range fn.Blocks {
+		if len(b.Instrs) == 0 {
+			continue
+		}
+		ifi, ok := b.Instrs[len(b.Instrs)-1].(*ssa.If)
+		if !ok {
+			continue
+		}
+		for i, succ := range b.Succs {
+			g := normGuard(guard{ifi.Cond, i == 0, ifi})
+			if x, eq, isN := nilCmp(g.cond); isN && eq == g.val {
+				if _, o, f, ok := loadOfField(x); ok && o == "Root" && f == "schema" {
+					cut[[2]*ssa.BasicBlock{b, succ}] = true
+				}
+			}
+			if _, o, f, ok := loadOfField(g.cond); ok && o == "Schema" && f == "implied" && g.val {
+				cut[[2]*ssa.BasicBlock{b, succ}] = true
+			}
+		}
+	}
+	seen := map[*ssa.BasicBlock]bool{fn.Blocks[0]: true}
+	work := []*ssa.BasicBlock{fn.Blocks[0]}
+	for len(work) > 0 {
+		b := work[len(work)-1]
+		work = work[:len(work)-1]
+		if b == target {
+			return true
+		}
+		for _, s := range b.Succs {
+			if cut[[2]*ssa.BasicBlock{b, s}] || seen[s] {
+				continue
+			}
+			seen[s] = true
+			work = append(work, s)
+		}
+	}
+	return false
 }
 
 func onlyNilReturn(cc *ast.CaseClause) bool {
@@ -838,6 +928,8 @@ func c17Null(c *Ctx, r *Report) {
 		}
 	}
 	found := false
+	nilOnMiss := false
+	guardedStores := 0
 	for _, b := range fn.Blocks {
 		for _, in := range b.Instrs {
 			mu, ok := in.(*ssa.MapUpdate)
@@ -864,8 +956,25 @@ func c17Null(c *Ctx, r *Report) {
 					allNil = false
 				}
 			}
+			getTypeGuard := func(b *ssa.BasicBlock, wantNil bool) bool {
+				return hasGuard(b, func(g guard) bool {
+					v, eq, ok := nilCmp(g.cond)
+					if !ok || (eq == g.val) != wantNil {
+						return false
+					}
+					call, ok := stripIface(v).(*ssa.Call)
+					return ok && call.Call.StaticCallee() != nil && call.Call.StaticCallee().Name() == "GetType"
+				})
+			}
 			if allNil {
+				if getTypeGuard(b, true) {
+					nilOnMiss = true // `if named == nil { result[key] = nil; return }`
+				}
 				continue // an early exit of the arm that stores null whatever the lookup said
+			}
+			if getTypeGuard(b, false) {
+				guardedStores++
+				continue // stored only where the lookup succeeded; the miss is an early exit of its own
 			}
 			okNil := false
 			for _, l := range ls {
@@ -883,6 +992,9 @@ func c17Null(c *Ctx, r *Report) {
 			}
 			r.check("C17.NULL", fnName(fn)+": __type of an unknown name yields null", mu.Pos(), okNil, "no nil value flows to the response on the path where the type lookup failed")
 		}
+	}
+	if guardedStores > 0 {
+		r.check("C17.NULL", fnName(fn)+": __type of an unknown name yields null (early exit)", fn.Pos(), nilOnMiss, "the value of a successful lookup is stored under GetType(..) != nil, but nothing stores null where the lookup failed")
 	}
 	if !found {
 		r.undecided("C17.NULL", fnName(fn)+": __type arm", fn.Pos(), "no response store under field.Name == \"__type\"")
